@@ -12,9 +12,12 @@
 (*  alg = "pow"    integer_power over Z_7, 2x2 matrices over Z_5 and words *)
 (*  alg = "euclid" extended_euclidean over -R..R                           *)
 (*  alg = "fft"    fft over Z_p for the lengths in FFTLens                 *)
+(*  alg = "map"    IdentityMapper.map_polynomial on abstract objects (one  *)
+(*                 step = one self.rec call, then the decision to return   *)
+(*                 the argument or to build a new polynomial)              *)
 (***************************************************************************)
 EXTENDS C19_Arith
-CONSTANTS Bugs, MaxN, R, FFTLens
+CONSTANTS Bugs, MaxN, R, FFTLens, MaxTerms
 VARIABLES alg, pc, in, s, bug
 
 vars == << alg, pc, in, s, bug >>
@@ -22,6 +25,7 @@ Bug == bug
 PowBugs == {"none", "drop_last", "no_square", "accept_negative"}
 EuBugs == {"none", "swap_forgot", "wrong_T"}
 FFTBugs == {"none", "stride", "twiddle"}
+MapBugs == {"none", "flag_overwritten", "base_ignored", "any_for_all", "generator_consumed"}
 
 (**************************** integer_power ********************************)
 PowInputs ==
@@ -113,6 +117,58 @@ FFTStep == /\ pc = "start" /\ pc' = "done" /\ UNCHANGED << alg, in, bug >>
            /\ s' = CooleyTukeyB(in.x, in.w, in.p, IF Bug \in {"stride", "twiddle"} THEN Bug ELSE "")
 FFTResultB == (alg = "fft" /\ pc = "done") => s = DFT(in.x, in.w, in.p)
 
+(**************************** IdentityMapper.map_polynomial ****************)
+(* Objects are abstract.  The argument has a base and n coefficient slots; *)
+(* the mapper hands a part back as the identical object ("old") or         *)
+(* rewrites it ("new"): in.rb / in.rw[i] say which - every subset of the   *)
+(* positions, with and without the base.  s.changed is "some part came     *)
+(* back as another object", the condition under which the code builds a    *)
+(* new polynomial instead of returning its argument                        *)
+(* (base is expr.base and all(t[1] is orig_t[1] ...)).                     *)
+(* Negative controls: flag_overwritten (a loop whose flag is assigned, not *)
+(* or-ed: the last coefficient decides), base_ignored (the base is left    *)
+(* out of the decision), any_for_all (one identical coefficient suffices), *)
+(* generator_consumed (the data is a generator which the all() has         *)
+(* advanced past the first rewritten coefficient).                         *)
+(***************************************************************************)
+Tok(rewritten) == IF rewritten THEN "new" ELSE "old"
+MapInit == /\ alg = "map" /\ pc = "base" /\ bug \in Bugs \cap MapBugs
+           /\ in \in UNION { { [n |-> n, rw |-> rw, rb |-> rb] : rw \in [1..n -> BOOLEAN], rb \in BOOLEAN } :
+                                n \in 0..MaxTerms }
+           /\ s = [i |-> 1, base |-> "", out |-> << >>, changed |-> FALSE, same |-> FALSE,
+                    calls |-> 0, res |-> [base |-> "", data |-> << >>]]
+MapBase == /\ pc = "base" /\ pc' = "coeff" /\ UNCHANGED << alg, in, bug >>
+           /\ s' = [s EXCEPT !.base = Tok(in.rb), !.calls = 1,
+                              !.changed = (IF Bug = "base_ignored" THEN FALSE ELSE in.rb)]
+MapCoeffStep ==
+    /\ pc = "coeff" /\ UNCHANGED << alg, in, bug >>
+    /\ IF s.i <= in.n
+       THEN /\ pc' = "coeff"
+            /\ s' = [s EXCEPT !.i = s.i + 1, !.out = Append(s.out, Tok(in.rw[s.i])), !.calls = s.calls + 1,
+                               !.changed = (IF Bug = "flag_overwritten" THEN in.rw[s.i] ELSE s.changed \/ in.rw[s.i])]
+       ELSE /\ pc' = "done"
+            /\ LET changed == IF Bug = "any_for_all"
+                               THEN in.rb \/ (\A j \in 1..in.n : in.rw[j])
+                               ELSE s.changed
+                    \* how far the all(...) over zip(data, expr.data) reads: through the first rewritten one
+                    k == IF \E j \in 1..in.n : in.rw[j]
+                         THEN CHOOSE j \in 1..in.n : in.rw[j] /\ \A l \in 1..(j - 1) : ~in.rw[l] ELSE in.n
+                    built == IF Bug = "generator_consumed" /\ ~in.rb THEN SubSeq(s.out, k + 1, in.n) ELSE s.out
+                IN s' = [s EXCEPT !.same = ~changed,
+                                  !.res = IF changed THEN [base |-> s.base, data |-> built]
+                                          ELSE [base |-> "old", data |-> [j \in 1..in.n |-> "old"]]]
+\* loop invariant: the flag says whether a part mapped so far came back as another object
+MapFlagInvB == (alg = "map" /\ pc = "coeff") =>
+                  (s.changed <=> (in.rb \/ \E j \in 1..(s.i - 1) : in.rw[j]))
+\* the result is the polynomial over the mapped base with every coefficient mapped - in
+\* particular the argument itself is returned only when no part was rewritten
+MapResultB == (alg = "map" /\ pc = "done") =>
+                 /\ s.res.base = Tok(in.rb)
+                 /\ s.res.data = [j \in 1..in.n |-> Tok(in.rw[j])]
+                 /\ s.same => (~in.rb /\ \A j \in 1..in.n : ~in.rw[j])
+\* every part goes through the mapper exactly once
+MapCallsB == (alg = "map" /\ pc = "done") => s.calls = in.n + 1
+
 (**************************** invariants ***********************************)
 \* the algorithm of the code
 PowLoopInv == bug = "none" => PowLoopInvB
@@ -124,6 +180,9 @@ EuGcdInv == bug = "none" => EuGcdInvB
 EuResult == bug = "none" => EuResultB
 EuSameAsFunction == bug = "none" => EuSameAsFunctionB
 FFTResult == bug = "none" => FFTResultB
+MapFlagInv == bug = "none" => MapFlagInvB
+MapResult == bug = "none" => MapResultB
+MapCalls == bug = "none" => MapCallsB
 \* negative controls: each of these MUST be reported violated
 Ctl_drop_last == bug = "drop_last" => PowResultB
 Ctl_no_square == bug = "no_square" => PowLoopInvB
@@ -132,11 +191,17 @@ Ctl_swap_forgot == bug = "swap_forgot" => EuResultB
 Ctl_wrong_T == bug = "wrong_T" => EuBezoutInvB
 Ctl_stride == bug = "stride" => FFTResultB
 Ctl_twiddle == bug = "twiddle" => FFTResultB
+Ctl_flag_overwritten == bug = "flag_overwritten" => MapFlagInvB
+Ctl_flag_overwritten_result == bug = "flag_overwritten" => MapResultB
+Ctl_base_ignored == bug = "base_ignored" => MapResultB
+Ctl_any_for_all == bug = "any_for_all" => MapResultB
+Ctl_generator_consumed == bug = "generator_consumed" => MapResultB
 
 (**************************** all together *********************************)
-Init == PowInit \/ EuInit \/ FFTInit
+Init == PowInit \/ EuInit \/ FFTInit \/ MapInit
 Next == \/ alg = "pow" /\ (PowStart \/ PowLoop)
         \/ alg = "euclid" /\ (EuStart \/ EuLoop)
         \/ alg = "fft" /\ FFTStep
+        \/ alg = "map" /\ (MapBase \/ MapCoeffStep)
 Spec == Init /\ [][Next]_vars
 =============================================================================
